@@ -904,3 +904,95 @@ func init() {
 			return out
 		}})
 }
+
+// ---- BUFALIAS: a receiver-owned scratch buffer never becomes a view of an operand
+
+// `evkg.buff[0].Q = skIn.Value.Q` rebinds a scratch polynomial of the protocol/evaluator object to the storage of a
+// caller's operand. Every later in-place operation on the buffer (in this call and in every following one, since the
+// field outlives the call) then modifies the operand — the caller's secret key share, ciphertext or plaintext. Scratch
+// fields are filled by copying (CopyLvl, ring operations with the buffer as destination), never by assignment from a
+// parameter.
+func scanBufAlias(c *core.Ctx) []ob {
+	var out []ob
+	e := effectsOf(c.Program)
+	n := 0
+	var fns []*types.Func
+	for f := range e.decls {
+		fns = append(fns, f)
+	}
+	sort.Slice(fns, func(i, j int) bool { return fns[i].Pos() < fns[j].Pos() })
+	for _, f := range fns {
+		d := e.decls[f]
+		if d.recv == nil || isCtorName(d.fd.Name.Name) {
+			continue
+		}
+		info := d.pk.TypesInfo
+		fkey := core.FuncKey(d.pk, d.fd)
+		sig := f.Type().(*types.Signature)
+		var bad []string
+		var badPos token.Pos
+		ast.Inspect(d.fd.Body, func(x ast.Node) bool {
+			as, ok := x.(*ast.AssignStmt)
+			if !ok || len(as.Lhs) != len(as.Rhs) || as.Tok != token.ASSIGN {
+				return true
+			}
+			for i, l := range as.Lhs {
+				if _, isIdent := unparen(l).(*ast.Ident); isIdent {
+					continue
+				}
+				if !storageType(info.TypeOf(l)) {
+					continue
+				}
+				isBuf := false
+				for _, o := range e.origins(d, l, 0) {
+					if o.recv && bufPath(o.path) != "" {
+						isBuf = true
+					}
+				}
+				if !isBuf {
+					continue
+				}
+				n++
+				if !isViewExpr(as.Rhs[i]) {
+					continue
+				}
+				for _, o := range e.origins(d, as.Rhs[i], 0) {
+					if !o.recv && o.param < sig.Params().Len() {
+						p := sig.Params().At(o.param)
+						bad = append(bad, fmt.Sprintf("%s = %s (a view of parameter %s) at %s", exprString(l), exprString(as.Rhs[i]), p.Name(), c.Rel(as.Pos())))
+						if badPos == token.NoPos {
+							badPos = as.Pos()
+						}
+					}
+				}
+			}
+			return true
+		})
+		if len(bad) > 0 {
+			out = append(out, withProps(violOb("BUFALIAS", "BUFALIAS:"+fkey, c.Rel(badPos), fmt.Sprintf("%s rebinds a scratch buffer of its receiver to an operand's storage: %s — later in-place work on the buffer modifies the caller's object, in this call and in the following ones", fkey, strings.Join(bad, "; "))), append(bufProps(fkey), "C09")...))
+		}
+	}
+	c.Stats["bufalias_stores"] = n
+	if len(out) == 0 {
+		out = append(out, okOb("BUFALIAS", "BUFALIAS:module", "", fmt.Sprintf("%d assignments to receiver scratch buffers, none from a view of a parameter", n), n > 0))
+	}
+	return out
+}
+
+func init() {
+	all := []string{"C04", "C05", "C06", "C09", "C11", "C12", "C13", "C14", "C16", "C18", "C20"}
+	core.Register(&core.Rule{Name: "BUFALIAS", Props: all,
+		Doc: "no method assigns a view of one of its parameters to a scratch buffer field of its receiver (buffers are filled by copying): otherwise later in-place work on the buffer modifies the caller's operand",
+		Run: func(c *core.Ctx) []ob {
+			out := scanBufAlias(c)
+			for i := range out {
+				if len(out[i].Props) == 0 {
+					out[i].Props = all
+				}
+			}
+			for _, o := range control(c, "BUFALIAS", scanBufAlias, "(bufOwner).Park") {
+				out = append(out, withProps(o, all...))
+			}
+			return out
+		}})
+}
